@@ -709,7 +709,7 @@ def _select(prop_id, cases, tier, seed):
             if c["model"] not in seen:
                 seen.add(c["model"])
                 grow.append(c)
-        chg = same + grow[:8]
+        chg = same + grow[:6]
     else:
         chg = [c for c in chg if not c.get("grow")][:300] + [c for c in chg if c.get("grow")][:200]
     for n, c in enumerate(smc):
